@@ -189,20 +189,9 @@ def main():
     must_raise("grad of a size-1 but complex output", lambda: grad(lambda z: (anp.sum(z) * 1j))(x))
     must_raise("grad w.r.t. int", lambda: grad(lambda z: z * 2.0)(3))
     must_raise("grad w.r.t. str", lambda: grad(lambda z: 1.0)("abc"))
-    must_raise("rollaxis axis<0", lambda: grad(lambda z: anp.sum(anp.rollaxis(z, -1)))(m))
-    must_raise("sort 2-D (reverse)", lambda: grad(lambda z: anp.sum(anp.sort(z) * m))(m))
-    must_raise("partition 2-D (reverse)", lambda: grad(lambda z: anp.sum(anp.partition(z, 1) * m))(m))
-    must_raise("norm ord=1 vector", lambda: grad(lambda z: anp.linalg.norm(z, 1))(x))
-    must_raise("norm ord=inf matrix", lambda: grad(lambda z: anp.linalg.norm(z, onp.inf))(m))
-    must_raise("pad mode=reflect", lambda: grad(lambda z: anp.sum(anp.pad(z, 1, mode="reflect")))(x))
-    must_raise("einsum sublist form without output", lambda: grad(lambda z: anp.sum(anp.einsum(z, [0, 1], m, [0, 1])))(m))
-    must_raise("atleast_2d of two arrays", lambda: grad(lambda z: anp.sum(anp.atleast_2d(z, z)[0]))(x))
-    must_raise("gradient with spacing argument", lambda: grad(lambda z: anp.sum(anp.gradient(z, 2.0)))(x))
-    must_raise("primitive without VJP (arange)", lambda: grad(lambda z: anp.sum(anp.arange(z)))(3.0))
-    must_raise("primitive without VJP (cumprod)", lambda: grad(lambda z: anp.sum(anp.cumprod(z)))(x))
-    must_raise("primitive without JVP (hypot) in forward mode", lambda: make_jvp(lambda z: anp.hypot(z, 1.0))(x)(x))
-    must_raise("svd full_matrices=True (non-square)", lambda: grad(lambda z: anp.sum(anp.linalg.svd(z, full_matrices=True)[0]))(m))
-    must_raise("rfftn odd last axis", lambda: grad(lambda z: anp.sum(anp.real(anp.fft.rfftn(z))))(m))
+    # (configurations the current tree happens not to support - negative rollaxis axes, sort / partition of matrices, pad
+    #  modes, einsum without an output list, gradient with a spacing, cumprod, hypot in forward mode, ... - are NOT demanded
+    #  to raise: implementing one of them correctly must not alarm.  They are raise-or-right rows of the option sweep below.)
 
     # ---- (C) option sweeps: every option combination either raises or gives the right derivative ----
     def ror(name, fn, x0):
@@ -265,6 +254,23 @@ def main():
             else:
                 dist("option-sweep:%s:right" % mode)
 
+    # configurations the pinned tree refuses: refusing is fine, so is a right answer; a wrong one is not
+    xr = onp.array([0.7, -1.3, 2.1])
+    mr = onp.array([[0.5, 2.5, 1.5], [4.5, 3.5, 5.75]])
+    ror("unsupported-so-far: rollaxis(m,-1)", lambda z: anp.rollaxis(z, -1), mr)
+    ror("unsupported-so-far: sort of a matrix", lambda z: anp.sort(z) * mr, mr)
+    ror("unsupported-so-far: partition of a matrix", lambda z: anp.partition(z, 1) * mr, mr)
+    ror("unsupported-so-far: einsum sublist form without output", lambda z: anp.einsum(z, [0, 1], mr, [0, 1]), mr)
+    ror("unsupported-so-far: atleast_2d of two arrays", lambda z: anp.atleast_2d(z, z)[0], xr)
+    ror("unsupported-so-far: gradient with a spacing", lambda z: anp.gradient(z, 2.0), xr)
+    ror("unsupported-so-far: arange(traced)", lambda z: anp.reshape(anp.sum(anp.arange(z[0] * 3.0 + 3.2)) + 0.0 * z[0], (1,)), xr)
+    ror("unsupported-so-far: cumprod", lambda z: anp.cumprod(z), xr)
+    ror("unsupported-so-far: hypot (forward mode)", lambda z: anp.hypot(z, 1.0), xr)
+    ror("unsupported-so-far: svd full_matrices=True (non-square)", lambda z: anp.linalg.svd(z, full_matrices=True)[1], mr)
+    ror("unsupported-so-far: rfftn odd last axis", lambda z: anp.real(anp.fft.rfftn(z)), mr)
+    ror("unsupported-so-far: pad mode=reflect", lambda z: anp.pad(z, 1, mode="reflect"), xr)
+    ror("unsupported-so-far: norm ord=1 of a vector", lambda z: anp.reshape(anp.linalg.norm(z, 1), (1,)), xr)
+    ror("unsupported-so-far: norm ord=inf of a matrix", lambda z: anp.reshape(anp.linalg.norm(z, onp.inf), (1,)), mr)
     # a traced value pushed through Python's scalar protocol or into a plain preallocated array: it either stays
     # differentiated or the attempt raises - it never silently becomes a constant
     import math as _math
